@@ -480,12 +480,7 @@ fn apply_order_by(rows: &mut [StringBinding], conditions: &[OrderCondition<'_>])
             let variable = normalize_variable(condition.variable);
             let left_value = left.get(variable).map(String::as_str).unwrap_or("");
             let right_value = right.get(variable).map(String::as_str).unwrap_or("");
-            let comparison = match (left_value.parse::<f64>(), right_value.parse::<f64>()) {
-                (Ok(left), Ok(right)) => left
-                    .partial_cmp(&right)
-                    .unwrap_or(std::cmp::Ordering::Equal),
-                _ => left_value.cmp(right_value),
-            };
+            let comparison = compare_order_keys(left_value, right_value);
             let comparison = match condition.direction {
                 SortDirection::Asc => comparison,
                 SortDirection::Desc => comparison.reverse(),
@@ -496,6 +491,28 @@ fn apply_order_by(rows: &mut [StringBinding], conditions: &[OrderCondition<'_>])
         }
         std::cmp::Ordering::Equal
     });
+}
+
+/// Total order on ORDER BY keys: unbound first, then numeric values in
+/// numeric order, then every other term in lexical order. Mixing the numeric
+/// and the lexical comparison pairwise is not transitive, which makes the
+/// sort result (and `sort_by` itself) unreliable on mixed columns.
+pub(crate) fn compare_order_keys(left: &str, right: &str) -> std::cmp::Ordering {
+    fn rank(value: &str) -> (u8, Option<f64>) {
+        if value.is_empty() {
+            (0, None)
+        } else if let Ok(number) = value.parse::<f64>() {
+            (1, Some(number))
+        } else {
+            (2, None)
+        }
+    }
+    let (left_rank, left_number) = rank(left);
+    let (right_rank, right_number) = rank(right);
+    left_rank.cmp(&right_rank).then_with(|| match (left_number, right_number) {
+        (Some(left_number), Some(right_number)) => left_number.total_cmp(&right_number),
+        _ => left.cmp(right),
+    })
 }
 
 fn collect_triple_patterns<'a>(
